@@ -25,7 +25,7 @@ PROPS = {
         "explanation": "Decides the happens-before chain of C03 as it is visible in the code's shape: handler only on the Ok edge of the draining function; draining function returns Ok only after recv succeeded on every receiver; hashes are announced only after the handler returned Ok and are taken from its result by the sub-index stored with the sender. Not decided: correctness of the announced content, acyclicity of the runtime plan.",
     },
     "C04": {
-        "rules": ["C04.R1", "C04.R2", "C04.R3", "C04.R4", "C04.R5", "C04.R6", "C08.R4"],
+        "rules": ["C04.R1", "C04.R2", "C04.R3", "C04.R4", "C04.R5", "C04.R6", "C08.R4", "C04.R7"],
         "explanation": "Decides: exit status is tested (code == Some(0)) before an output is accepted; nothing is recorded for a failed execution (history written only under Ok(Ok(_)) of join, error types carry no history); cancel is forwarded on every failing path; a Cancel packet stops the dependent; one error per failed thread, none for cancelled ones; errors carry the failing path. Not decided: content correctness of independent rules (C01).",
     },
     "C05": {
@@ -33,15 +33,15 @@ PROPS = {
         "explanation": "Decides the channel protocol that makes build/clean terminate: exactly one packet per edge per return path, receivers drained completely, all spawns before any join and every handle joined. Not decided: acyclicity of the runtime wait-for graph (sorter output).",
     },
     "C06": {
-        "rules": ["C06.R1", "C06.R3", "C06.R3b", "C09.R3", "C12.R1", "C05.R1", "C05.R3", "C01.R2"],
-        "explanation": "Non-interference argument: threads share nothing but channels and the file system (capture inventory); the only contended resource is the cache directory, on which no check-then-act may turn a lost race into a hard error; absence of a cache entry is never an error; channel results are consumed in receiver order, never arrival order. Not decided: equality of final bytes.",
+        "rules": ["C06.R1", "C06.R3", "C06.R3b", "C09.R3", "C12.R1", "C05.R1", "C05.R3", "C01.R2", "C18.R2"],
+        "explanation": "Non-interference argument: threads share nothing but channels and the file system (capture inventory); the only contended resource is the cache directory, on which no check-then-act may turn a lost race into a hard error; absence of a cache entry is never an error; channel results are consumed in receiver order, never arrival order; a restored file is never hashed through the mtime shortcut with the state of the file it replaced (which physical file - and so which mtime - a shared cache entry holds depends on the order in which sibling rules backed up identical content). Not decided: equality of final bytes.",
     },
     "C07": {
         "rules": ["C07.R1", "C07.R2", "C07.R3", "C07.R4", "C07.R5", "C01.R6", "C01.R9", "C01.R10", "C18.R1", "C18.R2"],
         "explanation": "Decides: a file enters the cache only under the hash computed from that very path with no mutation in between; one naming scheme for writer and readers; only the two renames of cache.rs write into the cache directory; (path, assumed state) pairs come from one FileInfo; hashes are refreshed after a command. Not decided: truth of remembered (hash, mtime) pairs at runtime.",
     },
     "C08": {
-        "rules": ["C08.R1", "C08.R2", "C08.R3", "C08.R4", "C07.R1", "C18.R1"],
+        "rules": ["C08.R1", "C08.R2", "C08.R3", "C08.R4", "C07.R1", "C18.R1", "C01.R10"],
         "explanation": "Decides: there is no deleting primitive (System trait method set, no std::fs outside real.rs); every rename destination is a content-named cache entry or a path proven vacant (backed up / found absent) on every path through all callers; every create_file targets a ruler state file or a vacant path, writes only go to created files; every non-AlreadyCorrect verdict is preceded by displacement. Not decided: preservation of actual bytes on a real file system.",
     },
     "C09": {
